@@ -6,11 +6,12 @@ CONSTANTS
   PlainKinds <- Plain_All
   MaxDeps = 1
   ViaSet <- Vias_Both
-  MaxOps = 4
+  MaxOps = 3
   MaxRegs = 2
   MaxDepth = 3
   SymClasses <- Sym_None
   Gen = FALSE
+VIEW McView
 INVARIANT Inv
 INVARIANT CrossCycleEscapes
 CHECK_DEADLOCK FALSE
